@@ -12,8 +12,9 @@ from common import hexb
 
 warnings.filterwarnings("ignore")
 
-DTYPES = {"i4": "Int32", "i2": "Int16", "u2": "UInt16", "u4": "UInt32", "f4": "Float32", "f8": "Float64", "U": "String"}
-NUMERIC = [k for k in DTYPES if k != "U"]
+DTYPES = {"i4": "Int32", "i2": "Int16", "u2": "UInt16", "u4": "UInt32", "f4": "Float32", "f8": "Float64", "U": "String",
+          "u1": "Byte"}
+NUMERIC = [k for k in DTYPES if k != "U"]     # "u1" (Byte) included: packed on the wire, padded to 4n
 STR_ALPHABET = "abcxyz019 _.-"     # no comma / quote / newline: the harness's ASCII reader splits sequence rows on ", "
 
 
@@ -38,21 +39,35 @@ def val_sexp(v):
 def gen_values(rng, dt, n):
     if dt == "U":
         return [gen_string(rng) for _ in range(n)]
+    if dt == "u1":
+        return [rng.choice([0, 1, 127, 128, 200, 255, rng.randint(0, 255), rng.randint(128, 255), rng.randint(0, 9)]) for _ in range(n)]
     lo, hi = (0, 9999) if dt[0] == "u" else (-9999, 9999)
     return [rng.choice([0, 1, lo, hi, rng.randint(lo, hi), rng.randint(-9, 9) if lo < 0 else rng.randint(0, 9)])
             for _ in range(n)]
 
 
 def gen_dtype(rng, strings=True):
-    return "U" if strings and rng.random() < 0.2 else rng.choice(NUMERIC)
+    r = rng.random()
+    if r < 0.2:
+        return "u1"
+    return "U" if strings and r < 0.4 else rng.choice(NUMERIC)
 
 
-def gen_base(rng, name, max_rank=3, rank=None, dims=None, strings=True):
-    dt = gen_dtype(rng, strings)
+# element counts 0..8 (multiples of four and the others) for Byte arrays: the XDR padding depends on count % 4
+BYTE_SHAPES = [[0], [1], [2], [3], [4], [4], [5], [6], [7], [8], [8], [2, 2], [2, 4], [4, 2], [1, 4], [2, 3], [3, 3], [2, 2, 2], [2, 0],
+               [1, 2, 2], [12]]
+
+
+def gen_base(rng, name, max_rank=3, rank=None, dims=None, strings=True, dt=None):
+    dt = dt or gen_dtype(rng, strings)
     if rank is None:
         rank = rng.choice([0, 1, 1, 2, 2, 3][: 2 + 2 * max_rank]) if max_rank else 0
         rank = min(rank, max_rank)
-    shape = [rng.randint(1, 4) if rank > 1 else rng.randint(1, 7) for _ in range(rank)]
+    shape = [rng.randint(1, 4) if rank > 1 else rng.randint(1, 8) for _ in range(rank)]
+    if dt == "u1" and rank and rng.random() < 0.7:
+        shape = rng.choice([s_ for s_ in BYTE_SHAPES if len(s_) == rank])
+    elif rank and rng.random() < 0.04:
+        shape[rng.randrange(rank)] = 0          # an empty array
     n = int(np.prod(shape)) if shape else 1
     if dims is None and rank and rng.random() < 0.5:
         dims = ["d%s%d" % (name, i) for i in range(rank)]
@@ -92,6 +107,11 @@ def gen_dataset(rng, with_seq=True, ambiguous=False, strings=True, nested=True):
                 for _ in range(rng.choice([1, 2, 3, 5, 8]))]
         vars_.append({"k": "sq", "name": "s", "cols": cols, "rows": rows})
     rng.shuffle(vars_)
+    if rng.random() < 0.4:
+        # a Byte array directly followed by another variable: what comes after the padding is read at the right offset
+        at = rng.randint(0, len(vars_))
+        vars_[at:at] = [gen_base(rng, "u", rank=rng.choice([1, 1, 1, 2]), dt="u1"),
+                        gen_base(rng, "w", max_rank=1, strings=False, dt=rng.choice(["i4", "i2", "f8", "u1"]))]
     return {"name": rng.choice(["d", "d", "data", "a1"]), "vars": vars_}
 
 
@@ -172,6 +192,74 @@ def build(spec, lazy=False):
     return ds
 
 
+# ------------------------------------------------------------------------------------------------ several datasets, one process
+def fresh_pydap():
+    """forget every imported pydap module: the next import builds pydap's module-level state anew, as a new server
+    process would (numpy, webob stay).  A history of requests starts here, so that it can be replayed on its own."""
+    import sys
+    for m in [m for m in sys.modules if m == "pydap" or m.startswith("pydap.")]:
+        del sys.modules[m]
+
+
+def gen_csv_spec(rng, stem):
+    """a CSV file as the CSV handler declares it: dataset <file name, quoted>, one Sequence `sequence`, unquoted cells are
+    Float64 and quoted cells String (csv.QUOTE_NONNUMERIC); at least one record"""
+    cols = [(nm, rng.choice(["f8", "f8", "U"])) for nm in ["i", "j", "f"][: rng.randint(1, 3)]]
+    rows = [[gen_values(rng, dt, 1)[0] if dt == "U" else rng.choice([rng.randint(-60, 60), rng.randint(0, 9), gen_values(rng, "i4", 1)[0]])
+             for (_, dt) in cols] for _ in range(rng.choice([1, 2, 3, 5, 8]))]
+    return {"name": stem + "%2Ecsv", "vars": [{"k": "sq", "name": "sequence", "cols": cols, "rows": rows}]}
+
+
+def write_csv(spec, directory):
+    import csv
+    import os
+    path = os.path.join(directory, spec["name"].replace("%2E", "."))
+    sq = spec["vars"][0]
+    with open(path, "w", newline="") as f:
+        w = csv.writer(f, quoting=csv.QUOTE_NONNUMERIC)
+        w.writerow([n for n, _ in sq["cols"]])
+        for r in sq["rows"]:
+            w.writerow(r)
+    return path
+
+
+BACKENDS = ["mem", "lazy", "ranged", "csv"]
+
+
+def gen_family(rng):
+    """[(key, backend, spec)]: 2..4 datasets for handlers living in one process.  In-memory and lazy datasets carry the same
+    dataset name and draw their variables from the same small pool of names, each with its own types, shapes and record
+    counts (ids such as s.i, a, st.p, g.v recur with other types); CSV files are all served as Sequence `sequence`."""
+    k = rng.choice([2, 2, 3, 4])
+    out = []
+    if rng.random() < 0.35:
+        for i in range(k):
+            out.append(("h%d" % i, "csv", gen_csv_spec(rng, "abct"[i])))
+        return out
+    name = rng.choice(["d", "data", "a1"])
+    for i in range(k):
+        for _ in range(50):
+            spec = gen_dataset(rng)
+            if any(v["k"] == "sq" and v["rows"] for v in spec["vars"]):
+                break
+        spec["name"] = name
+        out.append(("h%d" % i, rng.choice(["mem", "lazy", "lazy", "ranged"]), spec))
+    return out
+
+
+def build_app(backend, spec, directory=None, wrap=None):
+    """the WSGI application serving `spec` from `backend`"""
+    if backend == "csv":
+        from pydap.handlers.csv import CSVHandler
+        return CSVHandler(write_csv(spec, directory))
+    from pydap.handlers.lib import BaseHandler
+    return BaseHandler(build(spec, lazy={"mem": False, "lazy": "plain", "ranged": "ranged"}[backend]))
+
+
+def request_path(backend, spec, ext):
+    return "/%s.%s" % (spec["name"].replace("%2E", ".") if backend == "csv" else "d", ext)
+
+
 # ------------------------------------------------------------------------------------------------ valid CEs
 def gen_hs(rng, shape):
     """valid hyperslab: text and the python slices.  Valid = what check_hyperslab accepts: at most one index per axis
@@ -180,8 +268,8 @@ def gen_hs(rng, shape):
     text, sl = "", []
     axes = shape if rng.random() < 0.85 else shape[: rng.randint(1, len(shape))]
     for n in axes:
-        a = rng.randint(0, n - 1)
-        b = rng.randint(a, n - 1) if rng.random() < 0.85 else rng.choice([n, n + 1, 99])
+        a = rng.randint(0, n - 1) if n else 0          # an axis of length 0: only index 0 names it (the whole, empty, axis)
+        b = rng.randint(a, n - 1) if n and rng.random() < 0.85 else rng.choice([n, n + 1, 99])
         k = rng.choice([1, 1, 2, 3])
         form = rng.randint(0, 2)
         if form == 0:
@@ -399,6 +487,24 @@ def expected_decl(expected):
     return out
 
 
+def decl_leaves(decl):
+    """(id, type, shape) of every base variable of a declaration (expected_decl / parse_dds), in wire order"""
+    out = []
+
+    def members(ms):
+        for m in ms:
+            if m[0] == "st":
+                members(m[2])
+            else:
+                out.append(tuple(m))
+    for e in decl:
+        if e[0] == "b":
+            out.append(tuple(e[1:]))
+        else:
+            members(e[2])
+    return out
+
+
 def expected_values(expected):
     out = []
     for e in expected:
@@ -457,7 +563,8 @@ def inject_fault(rng, spec, q, kind):
     if kind == "too-many-index":
         return with_item(a + "[0][0][0][0][0]"[: 3 * rng.randint(2, 5)])
     if kind == "negative":
-        return with_item(a + rng.choice(["[-1]", "[-3:2]", "[0:-1]", "[0:-1:3]", "[-2:-1]"]))
+        # also on the sequence: a lazy row stream (itertools.islice) takes no negative index
+        return with_item(rng.choice([a, a, sn]) + rng.choice(["[-1]", "[-3:2]", "[0:-1]", "[0:-1:3]", "[-2:-1]"]))
     if kind == "inverted":
         return with_item(a + rng.choice(["[5:1]", "[3:2]", "[4:2:1]", "[1:0]"]))
     if kind == "out-of-range":
@@ -549,7 +656,7 @@ def run_request(app, path, query):
     """webob Request.blank(path?query).get_response(app); exception / status / headers / body read to the end"""
     from webob import Request
 
-    out = {"exc": None, "status": None, "ctype": None, "cdesc": None, "body": None, "body_exc": None, "sent": True}
+    out = {"exc": None, "status": None, "ctype": None, "cdesc": None, "body": None, "body_exc": None, "sent": True, "clen": None}
     try:
         req = Request.blank(path + ("?" + query if query is not None else ""))
     except Exception as e:  # the harness could not even build the request
@@ -568,6 +675,7 @@ def run_request(app, path, query):
     out["status"] = res.status_int
     out["ctype"] = res.content_type
     out["cdesc"] = res.headers.get("Content-description")
+    out["clen"] = res.headers.get("Content-Length")      # as announced by the response object (before webob fills it in)
     try:
         out["body"] = res.body
     except Exception as e:
@@ -634,7 +742,7 @@ def parse_dds(text):
     return name, entries, "\n".join(lines[pos[0]:])
 
 
-XDR_FMT = {"Int16": (">i", 4), "UInt16": (">I", 4), "Int32": (">i", 4), "UInt32": (">I", 4), "Float32": (">f", 4),
+XDR_FMT = {"Byte": (">B", 1), "Int16": (">i", 4), "UInt16": (">I", 4), "Int32": (">i", 4), "UInt32": (">I", 4), "Float32": (">f", 4),
            "Float64": (">d", 8)}
 
 
@@ -663,9 +771,19 @@ def decode_dods_values(decl, payload):
             pos += 4 + padded
             return v
         fmt, n = XDR_FMT[ty]
+        if pos + n > len(payload):
+            raise ValueError("%s value runs past the end of the data response" % ty)
         (v,) = struct.unpack_from(fmt, payload, pos)
         pos += n
         return v
+
+    def zero_pad(n, what):
+        """`n` bytes were just read as packed Bytes: skip the zero padding up to a multiple of four"""
+        nonlocal pos
+        k = -n % 4
+        if payload[pos:pos + k] != b"\0" * k:
+            raise ValueError("%s: the %d padding byte(s) after %d Byte value(s) are %r" % (what, k, n, payload[pos:pos + k]))
+        pos += k
 
     def rd_base(ty, shape):
         nonlocal pos
@@ -679,6 +797,8 @@ def decode_dods_values(decl, payload):
                 raise ValueError("array length words %r differ from the declared %d" % (ns, n))
         for _ in range(n):
             vals.append(read(ty))
+        if ty == "Byte":        # packed: one byte per value, zeros up to 4n after the last (a scalar: 1 + 3)
+            zero_pad(n, "Byte %s" % ("array" if shape else "scalar"))
 
     def rd_members(ms):
         for m in ms:
@@ -702,6 +822,8 @@ def decode_dods_values(decl, payload):
                     raise ValueError("bad sequence marker %r" % marker)
                 for (_, ty, _s) in e[2]:
                     vals.append(read(ty))
+                    if ty == "Byte":
+                        zero_pad(1, "Byte column")
     if pos != len(payload):
         raise ValueError("%d trailing bytes in the data response" % (len(payload) - pos))
     return vals
